@@ -1,6 +1,7 @@
 #!/bin/sh
-# tools/seed_matrix.sh [seed-id ...]  -- run the claimed checks of the seed's property (and any others given in CHECKS)
-# against every seeded change; prints one line per seed: which checks raise a VIOLATION.
+# tools/seed_matrix.sh [seed-id ...]  -- run checks against every seeded change in scratch worktrees; one line per seed.
+# Default: the seed's own property plus the properties listed in its meta.json "related" (if any); CHECKS="C01 C02 ..."
+# overrides; CHECKS=all runs every claimed check.
 HERE="$(cd "$(dirname "$0")/.." && pwd)"
 cd "$HERE"
 SEEDS="$@"
@@ -8,7 +9,10 @@ SEEDS="$@"
 CLAIMED=$(/venv/bin/python -c "import json; print(' '.join(c['property_id'] for c in json.load(open('MANIFEST.json'))['checks']))")
 for s in $SEEDS; do
   P=$(echo $s | cut -d- -f1)
-  LIST="${CHECKS:-$CLAIMED}"
+  if [ "$CHECKS" = "all" ]; then LIST="$CLAIMED"; elif [ -n "$CHECKS" ]; then LIST="$CHECKS"; else
+    REL=$(/venv/bin/python -c "import json; print(' '.join(json.load(open('seeded/$s/meta.json')).get('related', [])))")
+    LIST="$P $REL"
+  fi
   OUT=$(tools/mutant_run.sh seeded/$s/patch.diff $LIST 2>&1 | grep "^==" | tr '\n' ' ')
   echo "$s: $OUT"
 done
